@@ -1620,8 +1620,7 @@ func (a *APLPrefix) copy() APLPrefix {
 // len returns size of the prefix in wire format.
 func (a *APLPrefix) len() int {
 	// 4-byte header and the network address prefix (see Section 4 of RFC 3123)
-	prefix, _ := a.Network.Mask.Size()
-	return 4 + (prefix+7)/8
+	return 4 + len(a.wireAddress())
 }
 
 // TimeToString translates the RRSIG's incep. and expir. times to the
